@@ -701,6 +701,28 @@ def value_streams(ctx, budget):
         if "..." not in long_sp.name:
             ctx.note(f"name of 261 summands not shortened (len {len(long_sp.name)})")
 
+        # the same nesting as a SYMBOLIC expression of this vocabulary (first clause of the statement)
+        for uname, ufn in (("neg", lambda p, i: -p), ("inv", lambda p, i: ~p)):
+            for n in (60, 150, 199, 230, 300):
+                case = {"stream": "symbol", "algebra": tag, "d": d, "expr": f"{uname} x {n} on sym A", "nesting": n}
+                ctx.count(f"S {tag} deep {uname} {n}", branch=f"symbol-{tag}-deep-unary")
+                direct = vocab["A"]
+                try:
+                    with warnings.catch_warnings():
+                        warnings.simplefilter("ignore")
+                        sy = PointerSymbol("A", TVocabulary(vocab))
+                        for i in range(n):
+                            sy = ufn(sy, i)
+                            direct = ufn(direct, i)
+                        got = sy.evaluate().v
+                    if not np.array_equal(got, direct.v):
+                        ctx.fail(case, "evaluate().v differs", "the direct computation", where="symbol-deep-unary-value")
+                except Exception as ex:  # noqa: BLE001
+                    cls = ("cpython-nesting-limit" if isinstance(ex, SyntaxError) and "too many nested parentheses" in str(ex)
+                           and n > 199 else "other")
+                    ctx.fail(dict(case, **{"class": cls}), f"{type(ex).__name__}: {str(ex)[:80]}",
+                             "evaluates like the direct computation", where="symbol-deep-unary-evaluate")
+
         # directly nested unary operators: three characters per level, the deepest nesting a name can reach
         # below MAX_NAME.  Unshortened names must parse to the pointer's vector; building the pointer must work.
         for uname, ufn in (("neg", lambda p, i: -p), ("inv", lambda p, i: ~p), ("alt", lambda p, i: -p if i % 2 else ~p)):
